@@ -86,9 +86,15 @@ Definition step (c : cfg) (s : st) (e : event) : st :=
   match e with EEnsure => ensure c s | EFinish id => finish c id s | ERestart => restart s end.
 Definition run_events (c : cfg) (s : st) (evs : list event) : st := fold_left (step c) evs s.
 
-(* a deterministic fair schedule: Ensure, then every running handler returns in list order; repeated *)
+(* Ensure passes repeated until nothing more starts or changes (what one pass does depends on the order in which it
+   visits the tasks - Go iterates a map; the repeated pass does not: every enabling condition is monotone) *)
+Fixpoint iter_ensure (n : nat) (c : cfg) (s : st) : st :=
+  match n with O => s | S m => iter_ensure m c (ensure c s) end.
+Definition ensureF (c : cfg) (s : st) : st := iter_ensure (2 * length (tasks s) + 2) c s.
+
+(* a deterministic fair schedule: Ensure (to its fixpoint), then every running handler returns, oldest start first; repeated *)
 Definition round (c : cfg) (s : st) : st :=
-  let s1 := ensure c s in fold_left (fun acc id => finish c id acc) (running s1) s1.
+  let s1 := ensureF c s in fold_left (fun acc id => finish c id acc) (running s1) s1.
 Fixpoint settle (fuel : nat) (c : cfg) (s : st) : st :=
   match fuel with O => s | S f => settle f c (round c s) end.
 Definition statuses (s : st) : list (N * N) := map (fun t => (t_id t, norm (t_status t))) (tasks s).
@@ -99,11 +105,18 @@ Definition count (id : N) (u : bool) (lg : list (N * bool)) : N :=
   N.of_nat (length (filter (fun e => (fst e =? id) && Bool.eqb (snd e) u) lg)).
 
 (* ------------------------------------------------------------------ correspondence interface *)
-(* input: the graph (ids with the ids they wait for) and the handler configuration; observed: the final statuses of the
-   run without restart, and for each sampled checkpoint: the statuses in the payload, the final statuses after
-   ReadState + a fresh runner with the same handlers, and how often each do / undo handler was started after the restart *)
-Inductive restart_obs := RObs (payload final : list (N * N)) (dos undos : list (N * N)).
-Inductive case := Case (graph : list (N * list N)) (c : cfg) (final : list (N * N)) (rs : list restart_obs).
+(* the driver's schedule is a list of actions: AE = Ensure passes to the fixpoint, AF id = the handler of id returns.
+   input: the graph (ids with the ids they wait for), the handler configuration, the actions of the run without restart;
+   observed: the final statuses of that run, and for each sampled crash point j (after the first j actions):
+   the statuses in the last checkpoint payload, the final statuses after ReadState + fresh runner (restart run), the final
+   statuses of the BASELINE run without restart in which an Ensure happens at that moment (actions 1..j replayed on a
+   fresh state, then the same policy), and how often each do / undo handler was started after the restart *)
+Inductive action := AE | AF (id : N).
+Inductive restart_obs := RObs (j : nat) (payload final_restart final_baseline : list (N * N)) (dos undos : list (N * N)).
+Inductive case := Case (graph : list (N * list N)) (c : cfg) (acts : list action) (final : list (N * N)) (rs : list restart_obs).
+
+Definition do_action (c : cfg) (s : st) (a : action) : st :=
+  match a with AE => ensureF c s | AF id => finish c id s end.
 
 Definition pair_eqb (a b : N * N) : bool := (fst a =? fst b) && (snd a =? snd b).
 Fixpoint plist_eqb (a b : list (N * N)) : bool :=
@@ -117,16 +130,20 @@ Definition init_tasks (graph : list (N * list N)) (sts : list (N * N)) : list ta
 
 Definition mismatch (k : case) : bool :=
   match k with
-  | Case graph c final rs =>
-      let ts0 := init_tasks graph [] in
-      let fuel := settle_fuel ts0 in
-      negb (plist_eqb (statuses (settle fuel c (mkSt ts0 [] []))) final
+  | Case graph c acts final rs =>
+      let s0 := mkSt (init_tasks graph []) [] [] in
+      let fuel := settle_fuel (tasks s0) in
+      negb (plist_eqb (statuses (settle fuel c s0)) final
+            && plist_eqb (statuses (fold_left (do_action c) acts s0)) final
             && forallb (fun r => match r with
-                                 | RObs payload fin dos undos =>
-                                     let s := settle fuel c (mkSt (init_tasks graph payload) [] []) in
-                                     plist_eqb (statuses s) fin
-                                     && forallb (fun g => (count (fst g) false (log s) =? lookup dos (fst g))
-                                                          && (count (fst g) true (log s) =? lookup undos (fst g))) graph
+                                 | RObs j payload finr finb dos undos =>
+                                     let sj := fold_left (do_action c) (firstn j acts) s0 in
+                                     let sr := settle fuel c (mkSt (tasks sj) [] []) in
+                                     plist_eqb (statuses sj) payload
+                                     && plist_eqb (statuses sr) finr
+                                     && plist_eqb (statuses (settle fuel c sj)) finb
+                                     && forallb (fun g => (count (fst g) false (log sr) =? lookup dos (fst g))
+                                                          && (count (fst g) true (log sr) =? lookup undos (fst g))) graph
                                  end) rs)
   end.
 
@@ -135,11 +152,11 @@ Definition do_finished (s : N) : bool := negb ((s =? 2) || (s =? 3) || (s =? 0))
 Definition undo_finished (s : N) : bool := (s =? 8) || (s =? 1) || (s =? 9).
 Definition monitor_fail (k : case) : bool :=
   match k with
-  | Case graph c final rs =>
+  | Case graph c acts final rs =>
       negb (forallb (fun r => match r with
-                              | RObs payload fin dos undos =>
-                                  (* same outcome; nothing lost or duplicated *)
-                                  plist_eqb fin final && nlist_eqb (map fst payload) (map fst graph)
+                              | RObs j payload finr finb dos undos =>
+                                  (* same outcome as the run without restart; nothing lost or duplicated *)
+                                  plist_eqb finr finb && nlist_eqb (map fst payload) (map fst graph)
                                   && forallb (fun g =>
                                        let id := fst g in let ps := lookup payload id in
                                        (* finished work is not redone *)
@@ -149,4 +166,43 @@ Definition monitor_fail (k : case) : bool :=
                                        && (negb (ps =? 3) || (1 <=? lookup dos id))
                                        && (negb (ps =? 7) || (1 <=? lookup undos id))) graph
                               end) rs)
+  end.
+
+(* ------------------------------------------------------------------ the persistence assumption, made explicit *)
+(* What [restart] above takes for granted: at a crash the store holds the payload of the LAST unlock, i.e. checkpoints are
+   atomic with respect to state mutations and totally ordered (State.Unlock marshals and writes while the state lock is still
+   held). Here the store is a component of its own: [WStep] is a runner step followed by its checkpoint (H: written under
+   the lock, so it is the newest); [WStale old] is what the hypothesis excludes: a write of an OLDER payload completing
+   after newer ones (a checkpoint written outside the lock); [WCrash] reloads whatever the store holds. *)
+Record world := mkW { w_mem : st; w_disk : list task }.
+Inductive wevent := WStep (e : event) | WStale (old : list task) | WCrash.
+Definition wstep (c : cfg) (w : world) (we : wevent) : world :=
+  match we with
+  | WStep ERestart => w
+  | WStep e => let m := step c (w_mem w) e in mkW m (tasks m)
+  | WStale old => mkW (w_mem w) old
+  | WCrash => mkW (reload (w_disk w) (log (w_mem w))) (w_disk w)
+  end.
+Definition wrun (c : cfg) (w : world) (evs : list wevent) : world := fold_left (wstep c) evs w.
+Definition no_stale (evs : list wevent) : bool := forallb (fun e => match e with WStale _ => false | _ => true end) evs.
+(* the same history for the runner model without a store *)
+Definition erase (we : wevent) : list event :=
+  match we with WStep ERestart => [] | WStep e => [e] | WStale _ => [] | WCrash => [ERestart] end.
+
+(* ---- correspondence interface of the second driver (checkpoint discipline) *)
+(* observed by the driver's Backend on the real State.Unlock under concurrent lock/modify/unlock cycles, a runner and
+   pseudo-randomly slow writes: for each Checkpoint call whether the state lock was held during the call ([locked]), the
+   sequence markers of the payloads in the order in which the writes COMPLETED, the marker of the newest state, and the
+   task statuses in memory at quiescence and in the payload whose write completed last *)
+Inductive ocase := OCase (locked : list bool) (completed : list N) (newest : N) (mem_statuses last_statuses : list (N * N)).
+
+Fixpoint increasing (lo : N) (l : list N) : bool :=
+  match l with [] => true | x :: r => (lo <=? x) && increasing x r end.
+Definition omonitor_fail (k : ocase) : bool :=
+  match k with
+  | OCase locked completed newest mem_sts last_sts =>
+      negb (forallb (fun b => b) locked                       (* every checkpoint is written with the state lock held *)
+            && increasing 0 completed                         (* writes complete in the order of the unlocks *)
+            && (last completed 0 =? newest)                   (* the last completed write is the newest state *)
+            && plist_eqb mem_sts last_sts)                    (* ... and shows the statuses that are in memory *)
   end.
